@@ -292,10 +292,8 @@ Definition code_kind (c : Z) : option lkind :=
   if c =? 0 then Some LVoid else if c =? 2 then Some LB1 else if c =? 3 then Some LB2
   else if c =? 4 then Some LB4 else if c =? 5 then Some LB8 else None.
 
-Fixpoint cparse (fuel : nat) (w pos cur : Z) (rest : list Z) {struct fuel} : option (value * list Z) :=
-  match fuel with
-  | O => None
-  | S f =>
+Definition cparse_body (pv : Z -> Z -> Z -> list Z -> option (value * list Z))
+           (w pos cur : Z) (rest : list Z) : option (value * list Z) :=
     if w =? 0 then Some (VNull, rest) else
     let off := (w / 4) mod two30 in
     let here := (cur - pos - 1) mod two30 in
@@ -308,7 +306,7 @@ Fixpoint cparse (fuel : nat) (w pos cur : Z) (rest : list Z) {struct fuel} : opt
       else match take (dn + pn) rest with
            | None => None
            | Some (block, rest1) =>
-             match parse_cells (cparse f) (repeat SW (Z.to_nat dn) ++ repeat SP (Z.to_nat pn)) block
+             match parse_cells pv (repeat SW (Z.to_nat dn) ++ repeat SP (Z.to_nat pn)) block
                                cur (cur + dn + pn) rest1 with
              | Some (cs, rest2) => Some (VStruct (cell_words cs) (cell_vals cs), rest2)
              | None => None
@@ -330,7 +328,7 @@ Fixpoint cparse (fuel : nat) (w pos cur : Z) (rest : list Z) {struct fuel} : opt
         match take n rest with
         | None => None
         | Some (block, rest1) =>
-          match parse_cells (cparse f) (repeat SP (Z.to_nat n)) block cur (cur + n) rest1 with
+          match parse_cells pv (repeat SP (Z.to_nat n)) block cur (cur + n) rest1 with
           | Some (cs, rest2) => Some (VList LPtr (map (fun p => VStruct [] [p]) (cell_vals cs)), rest2)
           | None => None
           end
@@ -347,7 +345,7 @@ Fixpoint cparse (fuel : nat) (w pos cur : Z) (rest : list Z) {struct fuel} : opt
           | None => None
           | Some (block, rest1) =>
             let esh := repeat SW (Z.to_nat dn) ++ repeat SP (Z.to_nat pn) in
-            match parse_cells (cparse f) (concat (repeat esh (Z.to_nat cnt))) block
+            match parse_cells pv (concat (repeat esh (Z.to_nat cnt))) block
                               (cur + 1) (cur + 1 + n) rest1 with
             | Some (cs, rest2) =>
               Some (VList LComp (cut_elems (Z.to_nat cnt) (Z.to_nat dn) (Z.to_nat pn) cs), rest2)
@@ -368,7 +366,12 @@ Fixpoint cparse (fuel : nat) (w pos cur : Z) (rest : list Z) {struct fuel} : opt
             then Some (VList k (map (fun d => VStruct [d] []) ds), rest1) else None
           end
         end
-    else None          (* far pointers and capabilities do not occur in canonical form *)
+    else None          (* far pointers and capabilities do not occur in canonical form *).
+
+Fixpoint cparse (fuel : nat) (w pos cur : Z) (rest : list Z) {struct fuel} : option (value * list Z) :=
+  match fuel with
+  | O => None
+  | S f => cparse_body (cparse f) w pos cur rest
   end.
 
 (* decode a canonical message given as words: the root pointer, then everything consumed *)
@@ -401,4 +404,14 @@ Fixpoint truncated (v : value) : bool :=
     && ((pn =? 0)%nat || existsb (fun e => last_nonnull (sptrs e)) es)
   | VList LPtr es => forallb (fun e => match e with VStruct _ ps => forallb truncated ps | _ => true end) es
   | _ => true
+  end.
+
+(* a capability where the layout stage looks (for normal forms: anywhere) *)
+Fixpoint has_cap (v : value) : bool :=
+  match v with
+  | VCap _ => true
+  | VStruct _ ps => existsb has_cap ps
+  | VList LComp es => existsb (fun e => match e with VStruct _ ps => existsb has_cap ps | _ => false end) es
+  | VList LPtr es => existsb (fun e => match e with VStruct _ (p :: _) => has_cap p | _ => false end) es
+  | _ => false
   end.
